@@ -7,11 +7,9 @@ PROP = "C12"
 
 def spec():
     s = [dict(name="fmt_direct", sources=["fmt_direct.cpp"], variant=v) for v in ("dbg", "asan")]
-    try:
-        from vlib import e2e
-        s += e2e.specs(["dbg", "asan"], queues=["ub"])
-    except ImportError:
-        pass
+    from vlib import e2e
+    if 'lines' in e2e.PLANS:
+        s += e2e.specs_for(['lines'])
     return s
 
 
@@ -26,11 +24,9 @@ def run(tier, seed):
     for i in range(4 if q else 12):
         js.append(core.Job(exes[("fmt_direct", "asan")], ["--mode", "pat", "--seed", seed * 1000 + 100 + i, "--cases", 6000 if q else 30000],
                            variant="asan", timeout=3600, tag="fmt_direct.pat.asan", prop=PROP))
-    try:
-        from vlib import e2e
-        js += e2e.jobs(exes, "lines", tier, seed, PROP)
-    except ImportError:
-        pass
+    from vlib import e2e
+    if 'lines' in e2e.PLANS:
+        js += e2e.jobs(exes, 'lines', tier, seed, PROP)
     col = core.Collector(PROP)
     for j in core.run_jobs(js):
         col.absorb(j, prop_filter={PROP})
